@@ -146,3 +146,52 @@ _mg(f"{RMG}._create_no_import_between_original_subject_and_objects_message", par
 _mg(f"{RMG}._create_no_import_other_than_between_original_subject_and_objects_message", params=dict(self=RMG, rule_violations="Bag[Dep]"), returns="Bag[RVM]",
     ensures=[f"noimp_post(self, rule_violations, {ANY_MOD!r}, result)"], locals=_NOIMP_LOCALS, loops=_fmt_loops(repr(ANY_MOD)),
     ghost_at={"self._add_combined_any_rule_objects(": _NOIMP_HINTS})
+
+# ---------------------------------------------------------------- group 1 (continued): composition of the buckets into the record list and the text lines
+REG.macro("all_sound", ["g", "rv", "m"],
+          "noimp_sound(g, rv.should_violations, '', m) or other_img(g, rv.should_only_violations_by_forbidden_import, m) "
+          "or noimp_sound(g, rv.should_only_violations_by_no_import, '', m) or other_img(g, rv.should_not_violations, m) "
+          f"or noimp_sound(g, rv.should_except_violations, {ANY_MOD!r}, m) or other_img(g, rv.should_only_except_violations_by_forbidden_import, m) "
+          f"or noimp_sound(g, rv.should_only_except_violations_by_no_import, {ANY_MOD!r}, m) or other_img(g, rv.should_not_except_violations, m)")
+REG.macro("all_complete", ["g", "rv", "R"],
+          "noimp_complete(g, rv.should_violations, '', R) and other_complete(g, rv.should_only_violations_by_forbidden_import, R) "
+          "and noimp_complete(g, rv.should_only_violations_by_no_import, '', R) and other_complete(g, rv.should_not_violations, R) "
+          f"and noimp_complete(g, rv.should_except_violations, {ANY_MOD!r}, R) and other_complete(g, rv.should_only_except_violations_by_forbidden_import, R) "
+          f"and noimp_complete(g, rv.should_only_except_violations_by_no_import, {ANY_MOD!r}, R) and other_complete(g, rv.should_not_except_violations, R)")
+_OPQ2 = ["noimp_match", "noimp_sound"]
+_L2 = dict(messages="Bag[RVM]")
+# should_only = forbidden-import bucket + no-import bucket: every record comes from one of the two, each bucket is completely reported
+_mg(f"{RMG}._create_should_only_import_violated_messages", params=_RV, returns="Bag[RVM]", locals=_L2, opaque=_OPQ2,
+    ensures=["forall(RVM, lambda m: implies(m in result, other_img(self, rule_violations.should_only_violations_by_forbidden_import, m) or noimp_sound(self, rule_violations.should_only_violations_by_no_import, '', m)))",
+             "other_complete(self, rule_violations.should_only_violations_by_forbidden_import, result)",
+             "noimp_complete(self, rule_violations.should_only_violations_by_no_import, '', result)"])
+_mg(f"{RMG}._create_should_only_import_except_violated_messages", params=_RV, returns="Bag[RVM]", locals=_L2, opaque=_OPQ2,
+    ensures=[f"forall(RVM, lambda m: implies(m in result, other_img(self, rule_violations.should_only_except_violations_by_forbidden_import, m) or noimp_sound(self, rule_violations.should_only_except_violations_by_no_import, {ANY_MOD!r}, m)))",
+             "other_complete(self, rule_violations.should_only_except_violations_by_forbidden_import, result)",
+             f"noimp_complete(self, rule_violations.should_only_except_violations_by_no_import, {ANY_MOD!r}, result)"])
+# all eight buckets: every record is the image of an entry of SOME bucket (in that bucket's role), every entry of EVERY bucket has its record
+_mg(f"{BASE}._create_violation_messages", params=_RV, returns="Bag[RVM]", locals=_L2, opaque=_OPQ2,
+    ensures=["forall(RVM, lambda m: implies(m in result, all_sound(self, rule_violations, m)))", "all_complete(self, rule_violations, result)"])
+
+# text lines
+REG.macro("line", ["m"], "rvm_subject(m) + ' ' + rvm_verb(m) + ' ' + rvm_object(m) + '.'")
+REG.define("other_complete_l", dict(g=RMG, B="Bag[Dep]", L="Bag[Str]"),
+           "forall(Dep, lambda d: implies(d in B, line(mk_rvm(quoted(mid(d[0])), imports_verb(g), quoted(mid(d[1])))) in L))")
+REG.define("noimp_complete_l", dict(g=RMG, B="Bag[Dep]", pre="Str", L="Bag[Str]"),
+           "forall(Mod, lambda s: implies(viol_subj(B, s), exists(RVM, lambda m: (line(m) in L) and noimp_match(g, B, s, pre, m))))")
+REG.macro("all_complete_l", ["g", "rv", "L"],
+          "noimp_complete_l(g, rv.should_violations, '', L) and other_complete_l(g, rv.should_only_violations_by_forbidden_import, L) "
+          "and noimp_complete_l(g, rv.should_only_violations_by_no_import, '', L) and other_complete_l(g, rv.should_not_violations, L) "
+          f"and noimp_complete_l(g, rv.should_except_violations, {ANY_MOD!r}, L) and other_complete_l(g, rv.should_only_except_violations_by_forbidden_import, L) "
+          f"and noimp_complete_l(g, rv.should_only_except_violations_by_no_import, {ANY_MOD!r}, L) and other_complete_l(g, rv.should_not_except_violations, L)")
+REG.macro("lines_post", ["g", "rv", "L"],
+          "forall(Str, lambda t: implies(t in L, exists(RVM, lambda m: all_sound(g, rv, m) and t == line(m)))) and all_complete_l(g, rv, L)")
+_mg(f"{BASE}.create_rule_violation_messages", params=_RV, returns="Bag[Str]", returns_nodup=True, locals=dict(messages="Set[Str]"), opaque=_OPQ2,
+    # C03: every line is the rendering 'subject verb object.' of a record of some bucket; every bucket entry has its line; no line occurs twice (sorted(list(set)))
+    ensures=["lines_post(self, rule_violations, result)"],
+    loops={0: dict(sig="for message in self._create_violation_messages(rule_violations)", invariant=[
+        "forall(Str, lambda t: (t in messages) == exists(RVM, lambda m: (m in seen) and t == line(m)))"])})
+# the text of the AssertionError: a newline-join of (some arrangement of) exactly those lines
+REG.macro("text_post", ["g", "rv", "t"], "exists(Bag[Str], lambda L: lines_post(g, rv, L) and is_join(t, '\\n', L))")
+_mg(f"{BASE}.create_rule_violation_message", params=_RV, returns="Str", opts=["join_rel"], opaque=_OPQ2 + ["other_img", "other_complete_l", "noimp_complete_l"],
+    ensures=["text_post(self, rule_violations, result)"])
